@@ -21,7 +21,9 @@ from lib import vcfgen
 HDR_TAIL = ['##INFO=<ID=END,Number=1,Type=Integer,Description="end">', '##FILTER=<ID=PASS,Description="All filters passed">']
 
 
-def gen_file(r, ncontigs):
+def gen_file(r, ncontigs, win=16384):
+    """win = size of the smallest index window (2^min_shift; 16 kb for tabix): positions are snapped
+    to the last base of a window now and then, so that a region can start on its own last base"""
     contigs = [f"ctg{j}" for j in range(ncontigs)]
     used = [c for c in contigs if r.random() < 0.7] or [r.choice(contigs)]
     recs = []
@@ -36,6 +38,8 @@ def gen_file(r, ncontigs):
             else:
                 recs.append(f"{c}\t{pos}\t.\tA\tT\t.\tPASS\t.")
             pos += r.choice([0, 0, 1, 5, 100, 5000, 20000, 70000])
+            if r.random() < 0.15:
+                pos = (pos // win + 1) * win + r.choice([0, 0, 0, 1, -1])
     hdr = [f"##contig=<ID={c},length=100000000>" for c in contigs] + HDR_TAIL
     return contigs, vcfgen.vcf_text(hdr, recs), len(recs)
 
@@ -132,8 +136,8 @@ def run(ctx):
     nfiles = ctx.n(200, 3000)
     for i in range(nfiles):
         ncont = r.randint(1, 5)
-        contigs, text, nrec = gen_file(r, ncont)
         kind, ms, bcf = r.choice([("tbi", 14, False), ("csi", r.randint(9, 20), False), ("csi", r.choice([9, 10, 12, 14, 17]), True)])
+        contigs, text, nrec = gen_file(r, ncont, 1 << ms)
         lpb = r.choice([None, 1, 2, 5, 20])
         p = vcfgen.make_indexed(d, "c04", text, kind=kind, min_shift=ms, bcf=bcf, lines_per_block=lpb)
         doc = dict(index=kind, min_shift=ms, bcf=bcf, contigs=ncont, records=nrec, lines_per_block=lpb, file_seed=i)
